@@ -48,6 +48,18 @@ def check_calc(mod, tier, seed, extra_modules=()):
             generated_file=os.path.relpath(path, ROOT))
         rep.samples = [dict(theorem=o.name, statement=o.statement[:400], meaning=o.what) for o in g.obligations[:: max(1, len(g.obligations) // 8)]]
     rep.assumptions = list(getattr(mod, 'ASSUMPTIONS', []))
+    # exact observations on the real code that are part of the property (rejection paths, output widths): every run
+    always = []
+    if hasattr(mod, 'runtime_checks'):
+        try:
+            always = mod.runtime_checks() or []
+        except Exception as e:
+            rep.notes.append(f'runtime_checks crashed: {type(e).__name__}: {e}')
+    rep.coverage['runtime_observations_failed'] = len(always)
+    for f in always[:3]:
+        rep.violation(dict(kind='failing-input', input=f, broken=broken))
+    if always:
+        return rep.finish(checker_cmd=f'cd lean && lake build NdeVerif.Gen.{mod.PID}')
     if broken:
         found = []
         try:
